@@ -139,6 +139,22 @@ fn main() {
             println!("{}", serde_json::to_string_pretty(&serde_json::json!({"spec": spec, "wall_ms": t0.elapsed().as_millis() as u64, "report": rep})).unwrap());
             let _ = std::fs::remove_dir_all(&env.tmp);
         }
+        "exec" => {
+            // rsim exec <PROP> <tier> <spec.json>: execute a hand-edited spec (debugging aid)
+            if args.len() < 5 {
+                usage();
+            }
+            reset_affinity();
+            let prop = props::by_id(&args[2]).expect("property");
+            let tier = Tier::parse(&args[3]);
+            let spec: serde_json::Value = serde_json::from_str(&std::fs::read_to_string(&args[4]).expect("spec file")).expect("spec json");
+            let pool = spec.get("pool").and_then(serde_json::Value::as_u64).unwrap_or(0) as usize;
+            let env = one_env(prop, tier, pool);
+            let rep = prop.exec(&spec, &env);
+            common::dbg_dump();
+            println!("{}", serde_json::to_string_pretty(&serde_json::json!({"spec": spec, "report": rep})).unwrap());
+            let _ = std::fs::remove_dir_all(&env.tmp);
+        }
         "replay" => {
             if args.len() < 3 {
                 usage();
